@@ -10,6 +10,8 @@ import LocustModel.Wire.ResponseSpec
     e2e query_cols cols <names> <name>=<col>…                 /query_cols
     e2e mjson <k> cols … ;; cols …                            /multi_query_cols, JSON
     e2e mbin|mclient <k> <xor> <mantissa|_> <fp names> cols … ;; cols …     /multi_query_cols, capnp
+    e2e intwire mbin|mclient <ints>                           one integer column of a capnp response:
+                                                              `<layout:payload on the wire> => ok:<client ints>`
     e2e <endpoint> err <Variant>                              a failing query: `<status|dropped> next:<status>`
     e2e <endpoint> emb:<panic|hang>                           the embedded call itself did not return a value
     e2e twin                                                  same batches through /insert_bin and through
@@ -414,8 +416,40 @@ def stepMBin (xor mant fp : String) (blocks : List (List String)) (impl : String
     withKnown model spec dup
   | _, _, _, _ => "bad-op\tbad-op"
 
+/-! ### integer wire layouts (one case per integer column of a binary response) -/
+section IntWire
+open LM.Wire.ApiInts
+
+def showInts (xs : List Int) : String := showList showInt xs
+
+/-- Same text as C16's `ints` stream. -/
+def showLayout : Layout → String
+  | .range s n st => s!"range:{s}:{n}:{st}"
+  | .delta w f d => s!"d{w.tag}:{f}:{showInts d}"
+  | .ddelta w f s d => s!"dd{w.tag}:{f}:{s}:{showInts d}"
+  | .plain xs => s!"plain:{showInts xs}"
+
+/-- `e2e intwire <ep> <ints> :: <layout on the wire> => ok:<ints the client holds>`: the model predicts the union
+    member and its payload (`ApiInts.encode`, the ladder of `Column::serialize_builder`) and what the decoder returns;
+    the specification demands that the client holds the embedded column. -/
+def stepIntWire (arg impl : String) : String :=
+  match parseList parseInt? arg with
+  | none => "bad-op\tbad-op"
+  | some xs =>
+    let model := match encode xs with
+      | .error _ => "panic-enc"
+      | .ok l => showLayout l ++ " => " ++ (match decode l with
+          | .error _ => "panic-dec"
+          | .ok ys => "ok:" ++ showInts ys)
+    let spec := match impl.splitOn " => " with
+      | [_, dec] => if dec = "ok:" ++ showInts xs then "OK" else "BAD the client's integers differ from the embedded column: " ++ dec.take 60
+      | _ => "BAD no decoded column: " ++ impl.take 60
+    model ++ "\t" ++ spec
+end IntWire
+
 def stepE2E (toks : List String) (impl : String) : String :=
   match toks with
+  | ["intwire", _ep, ints] => stepIntWire ints impl
   | [ep, "err", v] => stepErr ep v impl
   | ["query", "rows", names, rows] => stepQueryRows names rows impl
   | "query_cols" :: "cols" :: names :: cols => stepQueryCols names cols impl
